@@ -68,6 +68,10 @@ claim("C19", "per-arm version consistency, budget-threading (dataflow shape) and
       "Per Plutus version one arm pairs script kind, cost model, language and TxInfo builder; (datum?) -> redeemer -> context for V1/V2, context only for V3; the caller's budget reaches every evaluation; the redeemer loop evaluates against the remaining budget and decrements it in both dimensions, correctly paired, by the units of the redeemer the evaluation returned; machine errors become Err before a result is built; the ledger's ordered collections are sorted in the script context; every positional sort of inputs keys on (transaction id, index); lookup-table discovery loops run to completion.",
       "contents of the script context (value construction in to_plutus_data), phase-one checks beyond pointer construction and slot arithmetic are not decided", "DESIGN.md §3 C19", "shape")
 
+claim("C16", "decision-table agreement, who-may-write (MIR field writes), effect audit (resolved callees), guard lint over the shrinker",
+      "Thin but exact: the two places of run_once that decide what a counterexample is (first keep, replay cache) carry explicit three-row tables that agree and match the meaning of `fail` tests; Counterexample.value/choices are written only in consider, together, under Keep, from the replayed choices; every runnable gets the run's seed unchanged; the only clock call in the framework is the reviewed display-only one; every len()-k in simplify is guarded by a test of the same vector.",
+      "termination and minimality of simplify, the cache's prefix rule and shortlex monotonicity are arithmetic on runtime values and are not decided", "DESIGN.md §3 C16", "shape+flow")
+
 
 def main():
     props = [json.loads(l) for l in open(os.path.join(HERE, "properties.jsonl"))]
